@@ -90,6 +90,10 @@ def operations(tier, cfg='full'):
         ops.append({'id': name, 'ok': ok, 'fn': fn, 'req': req, 'kind': kind})
     op('Unicode(max_len=5)', lambda m: is_prim(m, 'Unicode'), lambda m: m(max_len=5), {'max_len': 5})
     op('Integer(ge=3)', lambda m: is_prim(m, 'Integer'), lambda m: m(ge=3), {'ge': 3})
+    # enumerations, also of an already enumerated type (the second derivation replaces the value set)
+    op('Unicode(values=a,zz)', lambda m: is_prim(m, 'Unicode'), lambda m: m(values=['a', 'zz']), {'values': ['a', 'zz']})
+    op('Unicode(values=zz,abcdef)', lambda m: is_prim(m, 'Unicode'), lambda m: m(values=['zz', 'abcdef']), {'values': ['zz', 'abcdef']})
+    op('Integer(le=2)', lambda m: is_prim(m, 'Integer'), lambda m: m(le=2), {'le': 2})
     op('Decimal(6,2)', lambda m: is_prim(m, 'Decimal') and not is_prim(m, 'Integer') and not is_prim(m, 'Double'), lambda m: m(6, 2), {'total_digits': 6, 'fraction_digits': 2})
     op('ByteArray(hex)', lambda m: is_prim(m, 'ByteArray'), lambda m: m(encoding='hex'), None)
     op('customize(min_occurs=1)', lambda m: True, lambda m: m.customize(min_occurs=1), {'min_occurs': 1})
@@ -260,6 +264,8 @@ def derivation_chain(history, cfg, i):
     return chain, i
 
 
+FACETS = {'Unicode(max_len=5)': {'max_len': 5}, 'Integer(ge=3)': {'ge': 3}, 'Unicode(values=a,zz)': {'values': ['a', 'zz']},
+          'Unicode(values=zz,abcdef)': {'values': ['zz', 'abcdef']}, 'Integer(le=2)': {'le': 2}}
 EVOLVE = {'append_field': ('n1', 'Integer', {'min_occurs': 1}, 'child_attrs(n1)'), 'insert_field': ('n0', 'Unicode', {'max_len': 7}, 'child_attrs(n0)')}
 PROBE_KEYS = ('min_occurs', 'max_occurs', 'nillable', 'max_len', 'min_len', 'ge', 'exc', 'default')
 
@@ -325,7 +331,7 @@ def canon(pool):
 
 def bounds(tier):
     return {'seed_pool': [l for l, m in fresh_pool()] if False else ['Unicode', 'Integer', 'A', 'B(A)', 'Array(A)', 'Array(Integer)', 'Decimal', 'ByteArray'],
-            'operations': 21 if tier == 'quick' else 24, 'depth': 2 if tier == 'quick' else 3, 'complex_only_pool': {'seed_pool': ['A', 'B(A)'], 'operations': CX_OPS, 'depth': 3 if tier == 'quick' else 4}, 'hash_seeds': ['0', '1', '7', '1234']}
+            'operations': 24 if tier == 'quick' else 27, 'depth': 2 if tier == 'quick' else 3, 'complex_only_pool': {'seed_pool': ['A', 'B(A)'], 'operations': CX_OPS, 'depth': 3 if tier == 'quick' else 4}, 'hash_seeds': ['0', '1', '7', '1234']}
 
 
 def first_steps(tier, cfg='full'):
@@ -406,6 +412,40 @@ def check_transition(hist, opdesc, idx, before_pool_snap, pool_before_len, pool,
             extra = [k for k in sorted(set(b_) | set(a_)) if b_.get(k) != a_.get(k) and k not in o['req'] and k not in ('max_str_len', 'nullable', 'nillable', 'pattern', 'sqla_column_args', 'translations')]
             if extra:
                 V('post', 'unrequested-attribute-changed:%s' % ','.join(extra)[:60], 'attributes %s differ from the operand although not requested' % extra)
+    # verdicts: every primitive of the pool validates the probe values as the reference predicate says for the facets its
+    # derivation chain asked for (a verdict may not come from anybody else's constraints, however they are cached)
+    from vf.ref import validity
+    n0 = 2 if cfg == 'cx' else 8
+    for i, (lab, m) in enumerate(pool):
+        for pname, probes in PROBES.items():
+            if pname == 'Decimal' or not is_prim(m, pname) or (pname == 'Integer' and False):
+                continue
+            chain, root = derivation_chain(hist, cfg, i)
+            facets = {}
+            ok_chain = True
+            for opid in chain:
+                f = FACETS.get(opid)
+                if f is None:
+                    if opid.startswith(('customize(', 'shared-dict')):
+                        continue      # occurrence / naming attributes: no influence on the verdict of a value
+                    ok_chain = False
+                    break
+                facets.update(f)
+            if not ok_chain:
+                continue
+            t = ['p', pname, facets]
+            for pr in probes:
+                want = validity.scalar_ok(t, pr)
+                try:
+                    got = bool(m.validate_native(m, pr)) and (not isinstance(pr, str) or bool(m.validate_string(m, pr)))
+                except Exception as e:
+                    got = 'ERR:%s' % type(e).__name__
+                if got != want:
+                    V('verdict', '%s|%s' % (pname, 'accepts' if got is True else 'rejects' if got is False else got),
+                      'model %s (derived by %s, facets %s) %s %r, the reference predicate says %s' % (
+                          lab, chain, facets, 'accepts' if got is True else 'rejects', pr, 'accept' if want else 'reject'))
+                    break
+            break
     # order: declaration order, parents first
     from spyne.model.complex import ComplexModelBase
     for lab, m in pool:
